@@ -5,11 +5,12 @@
  * "every node exactly once" is stated for ONE symbolic victim position g_k (no quantifier).
  *   - storage: the node at position j (0 = head = most recently pushed) lives in g_cell[j & 3].  A traversal step
  *     only holds pointers to nodes j and j+1; any 4 consecutive nodes are distinct objects, and the storage of a
- *     node is reused (for node j+4) only after that node has died.  (ss.done.b3 below re-checks the same contract
+ *     node is reused (for node j+4) only after that node has died.  (ss.done.b3, done_b3.c, re-checks the same contract
  *     on a chain of up to 3 genuinely distinct, harness-built nodes without any of this.)
  *   - well-formedness of the chain (node j's `next` is node j+1, the last `next` is nullptr) is what add_op_state's
- *     postcondition `op_state->next == lin_old` establishes push by push; it is instantiated lazily, one node
- *     ahead of the traversal (see op_continuation);
+ *     postcondition `op_state->next == lin_old` establishes push by push; the model materialises it lazily, two
+ *     nodes ahead of the traversal (harness: nodes 0 and 1; op_continuation: node g_pos + 2) -- by writing, not by
+ *     assuming, and the stub asserts that the link of the node being continued is still intact;
  *   - the operation state may be destroyed inside continuation() (the receiver completes and its owner frees the
  *     operation state): the stub overwrites the node with garbage, so a `next` read after the call is garbage;
  *   - the LAST continuation may drop the last reference to this group, so `*this` may be destroyed inside it:
@@ -54,6 +55,7 @@ static void interfere(void **p)
     VX_ASSUME(m > g_n && m <= CHAIN_MAX); /* environment step: m - g_n operation states were pushed */
     g_n = m;
     CELL(0).next = NODE(1);
+    CELL(1).next = NODE(2);
     *p = &CELL(0);
     g_pushed = true;
   }
@@ -92,6 +94,7 @@ static void op_continuation(struct op *p)
 {
   VX_ASSERT(lin, "continuations run only after the exchange has closed the queue");
   VX_ASSERT(g_pos < g_n && p == &CELL(g_pos), "continuation() is called on the next live node of the captured chain and on nothing else");
+  VX_ASSERT(CELL(g_pos).next == NODE(g_pos + 1), "done() must not modify the queued operation states' links");
   if (g_pos == g_k && g_victim_calls < 2) g_victim_calls++;
   /* the operation state may be destroyed during the call */
   CELL(g_pos).next = GARBAGE(); /* == p->next; written through the cell: p is a havocked pointer for CBMC */
@@ -104,9 +107,10 @@ static void op_continuation(struct op *p)
     vx_self->op_state_head = GARBAGE();
     vx_self->next_state = NULL;
   }
-  /* chain well-formedness instantiated at the next node: its `next` was fixed when it was pushed
-   * (add_op_state: op_state->next == lin_old) and nobody writes it afterwards */
-  VX_ASSUME(g_pos >= g_n || CELL(g_pos).next == NODE(g_pos + 1));
+  /* materialise the chain two nodes ahead of the traversal (no assumption: the stub WRITES the `next` of the node
+   * after the next one into storage whose previous occupant, node g_pos - 3, is dead; that it is still intact when the
+   * traversal gets there is asserted above) */
+  if (g_pos + 1 < g_n) CELL(g_pos + 1).next = NODE(g_pos + 2);
 }
 
 #define DONE_FRAME self->op_state_head, self->next_state, lin, lin_old, lin_new, g_n, g_pos, g_victim_calls, g_self_dead, g_pushed, __CPROVER_object_whole(g_cell)
@@ -115,7 +119,7 @@ static void op_continuation(struct op *p)
 void done(struct ss *self)
 __CPROVER_requires(self == vx_self && !lin && !g_self_dead && g_pos == 0 && g_victim_calls == 0)
 /* the queue is not closed yet (done() at most once per group) and holds a well-formed chain of g_n nodes */
-__CPROVER_requires(0 <= g_n && g_n <= CHAIN_MAX && self->op_state_head == NODE(0) && (g_n == 0 || CELL(0).next == NODE(1)))
+__CPROVER_requires(0 <= g_n && g_n <= CHAIN_MAX && self->op_state_head == NODE(0) && (g_n <= 0 || CELL(0).next == NODE(1)) && (g_n <= 1 || CELL(1).next == NODE(2)))
 /* the exchange installed the sentinel */
 __CPROVER_ensures(lin && lin_new == SENTINEL(self) && lin_old == NODE(0))
 /* every node of the captured chain was continued (and, by the stub's assertion, nothing else was) ... */
@@ -141,6 +145,7 @@ void harness(void)
   bool inrange = g_n > 0 && g_n <= CHAIN_MAX;
   s.op_state_head = inrange ? &g_cell[0] : NULL;
   g_cell[0].next = (inrange && g_n > 1) ? &g_cell[1] : NULL;
+  g_cell[1].next = (inrange && g_n > 2) ? &g_cell[2] : NULL;
   done(&s);
   VX_REACH("returned");
   if (g_n == 0) VX_REACH("empty_queue");
